@@ -5,7 +5,7 @@
 //! module, on a real simulation; against a reference interpreter with exact virtual time.
 
 use des::prelude::*;
-use des::time::{interval, sleep, sleep_until, timeout, MissedTickBehavior};
+use des::time::{interval, interval_at, sleep, sleep_until, timeout, timeout_at, MissedTickBehavior};
 use std::future::Future;
 use std::pin::Pin;
 use std::sync::{Arc, Mutex};
@@ -89,7 +89,8 @@ async fn run_steps(task: usize, steps: Vec<Step>, log: Log, mut flag: watch::Rec
                 push(0);
             }
             Step::Timeout(d, inner) => {
-                let r = timeout(ms(d), sleep(ms(inner))).await;
+                // the relative and the absolute form, in turn
+                let r = if (task + i) % 2 == 0 { timeout(ms(d), sleep(ms(inner))).await } else { timeout_at(SimTime::now() + ms(d), sleep(ms(inner))).await };
                 push(if r.is_ok() { 1 } else { 2 });
             }
             Step::TimeoutNever(d, far) => {
@@ -122,8 +123,9 @@ async fn run_steps(task: usize, steps: Vec<Step>, log: Log, mut flag: watch::Rec
                 let s = sleep(ms(d0));
                 tokio::pin!(s);
                 s.as_mut().reset(SimTime::now() + ms(d1));
+                let consistent = s.deadline() == SimTime::now() + ms(d1) && s.is_elapsed() == (d1 == 0);
                 s.await;
-                push(0);
+                push(if consistent { 0 } else { 777 });
             }
             Step::ResetPolled(d0, d1) => {
                 let s = sleep(ms(d0));
@@ -144,7 +146,7 @@ async fn run_steps(task: usize, steps: Vec<Step>, log: Log, mut flag: watch::Rec
                 push(0);
             }
             Step::IntervalReset(p) => {
-                let mut iv = interval(ms(p));
+                let mut iv = if (task + i) % 2 == 0 { interval(ms(p)) } else { interval_at(SimTime::now(), ms(p)) };
                 iv.tick().await;
                 iv.tick().await;
                 log.lock().unwrap().push((task, i, now_ms(), 1));
@@ -153,7 +155,7 @@ async fn run_steps(task: usize, steps: Vec<Step>, log: Log, mut flag: watch::Rec
                 log.lock().unwrap().push((task, i, now_ms(), 100_000 + (t.as_nanos() / 1_000_000) as u64));
             }
             Step::Interval(p, beh, gap) => {
-                let mut iv = interval(ms(p));
+                let mut iv = if (task + i) % 2 == 0 { interval(ms(p)) } else { interval_at(SimTime::now(), ms(p)) };
                 iv.set_missed_tick_behavior(match beh {
                     Beh::Burst => MissedTickBehavior::Burst,
                     Beh::Delay => MissedTickBehavior::Delay,
